@@ -100,6 +100,9 @@ type pathState struct {
 	locks   map[value]*lockState
 	named   map[string]uint64
 	stubs   map[string]bool
+	pcSet   map[*Term]bool
+	pinned  map[string]uint64
+	nQuick  int
 	poolChoice bool
 	poolReuse  int
 }
@@ -111,7 +114,7 @@ type knownPred struct {
 
 func (i *interpreter) newPath(w WorkItem) *pathState {
 	ps := &pathState{prefix: w.Prefix, model: w.Model, invars: map[string]uint8{}, reach: map[string]bool{},
-		pools: map[value][]value{}, allocB: -1, extra: map[string]interface{}{}, named: map[string]uint64{}, stubs: map[string]bool{}}
+		pools: map[value][]value{}, allocB: -1, extra: map[string]interface{}{}, named: map[string]uint64{}, stubs: map[string]bool{}, pcSet: map[*Term]bool{}, pinned: map[string]uint64{}}
 	if ps.model == nil {
 		ps.model = Model{}
 		ps.needModel = len(w.Prefix) > 0
@@ -126,7 +129,134 @@ func (i *interpreter) addPC(c *Term) {
 		return
 	}
 	i.ps.pc = append(i.ps.pc, c)
+	i.ps.pcSet[c] = true
+	i.notePinned(c)
 	i.solver.Assert(c)
+}
+
+// notePinned records variables pinned to constants by the path condition (v == k, conjunctions).
+func (i *interpreter) notePinned(c *Term) {
+	switch c.Op {
+	case OpAnd:
+		i.notePinned(c.A)
+		i.notePinned(c.B)
+	case OpEq:
+		if c.A.Op == OpVar && c.B.Op == OpConst {
+			i.ps.pinned[c.A.Name] = c.B.Val
+		} else if c.B.Op == OpVar && c.A.Op == OpConst {
+			i.ps.pinned[c.B.Name] = c.A.Val
+		}
+	case OpVar:
+		if c.W == 0 {
+			i.ps.pinned[c.Name] = 1
+		}
+	case OpNot:
+		if c.A.Op == OpVar {
+			i.ps.pinned[c.A.Name] = 0
+		}
+	}
+}
+
+// quickDecide tries to settle c from the path condition without the solver.
+func (i *interpreter) quickDecide(c *Term) (val bool, ok bool) {
+	ps := i.ps
+	if ps.pcSet[c] {
+		return true, true
+	}
+	if ps.pcSet[i.tt.Not(c)] {
+		return false, true
+	}
+	if len(ps.pinned) > 0 {
+		if v, known := i.evalPartial(c, map[*Term]pval{}); known {
+			return v != 0, true
+		}
+	}
+	return false, false
+}
+
+type pval struct {
+	v  uint64
+	ok bool
+}
+
+// evalPartial evaluates t using only pinned variables; ok=false if an unpinned variable matters.
+func (i *interpreter) evalPartial(t *Term, memo map[*Term]pval) (uint64, bool) {
+	if t.Op == OpConst {
+		return t.Val, true
+	}
+	if r, ok := memo[t]; ok {
+		return r.v, r.ok
+	}
+	var v uint64
+	ok := false
+	switch t.Op {
+	case OpVar:
+		v, ok = i.ps.pinned[t.Name]
+	case OpAnd:
+		a, aok := i.evalPartial(t.A, memo)
+		b, bok := i.evalPartial(t.B, memo)
+		switch {
+		case aok && a == 0, bok && b == 0:
+			v, ok = 0, true
+		case aok && bok:
+			v, ok = 1, true
+		}
+	case OpOr:
+		a, aok := i.evalPartial(t.A, memo)
+		b, bok := i.evalPartial(t.B, memo)
+		switch {
+		case aok && a != 0, bok && b != 0:
+			v, ok = 1, true
+		case aok && bok:
+			v, ok = 0, true
+		}
+	case OpIte:
+		c, cok := i.evalPartial(t.A, memo)
+		if cok {
+			if c != 0 {
+				v, ok = i.evalPartial(t.B, memo)
+			} else {
+				v, ok = i.evalPartial(t.C, memo)
+			}
+		} else {
+			a, aok := i.evalPartial(t.B, memo)
+			b, bok := i.evalPartial(t.C, memo)
+			if aok && bok && a == b {
+				v, ok = a, true
+			}
+		}
+	case OpNot:
+		a, aok := i.evalPartial(t.A, memo)
+		v, ok = 1-a, aok
+	case OpBNot:
+		a, aok := i.evalPartial(t.A, memo)
+		v, ok = ^a&mask(t.W), aok
+	case OpNeg:
+		a, aok := i.evalPartial(t.A, memo)
+		v, ok = -a&mask(t.W), aok
+	case OpZExt:
+		v, ok = i.evalPartial(t.A, memo)
+	case OpSExt:
+		a, aok := i.evalPartial(t.A, memo)
+		v, ok = uint64(sext(a, t.A.W))&mask(t.W), aok
+	case OpExtract:
+		a, aok := i.evalPartial(t.A, memo)
+		v, ok = (a>>t.Val)&mask(t.W), aok
+	case OpEq:
+		a, aok := i.evalPartial(t.A, memo)
+		b, bok := i.evalPartial(t.B, memo)
+		if aok && bok {
+			v, ok = b2u(a == b), true
+		}
+	default:
+		a, aok := i.evalPartial(t.A, memo)
+		b, bok := i.evalPartial(t.B, memo)
+		if aok && bok {
+			v, ok = evalBin(t.Op, t.A.W, a, b), true
+		}
+	}
+	memo[t] = pval{v, ok}
+	return v, ok
 }
 
 func (i *interpreter) evalModel(t *Term) uint64 {
@@ -164,6 +294,10 @@ func (i *interpreter) decide(c *Term) bool {
 		return c.Val != 0
 	}
 	ps := i.ps
+	if v, ok := i.quickDecide(c); ok {
+		ps.nQuick++
+		return v
+	}
 	if ps.pos < len(ps.prefix) {
 		d := ps.prefix[ps.pos]
 		if d.K != 'b' {
